@@ -1,56 +1,88 @@
-"""Representation-range rule (engine E4): in the field whose internal representation is documented as lazy — f62, values in
-[0, 2M) — every construction of a BaseElement is proved to store a value inside that range, assuming every BaseElement that flows
-in (parameters, elements loaded from memory) is inside it and every raw integer is arbitrary. Interval analysis with case splits
-on `z >> 62` (the quotient estimate of the lazy reduction) and order facts (`a < b` on the branch that computes 2M - b + a)."""
+"""Representation-range rule (engine E4). For a field whose elements wrap a machine integer with a documented range —
+f62: lazy Montgomery values in [0, 2M); f64: canonical Montgomery values in [0, M) compared bitwise — every construction of a
+BaseElement in the field's module is proved to store a value inside that range, assuming every BaseElement that flows in
+(parameters, elements loaded from memory) is inside it and every raw integer is arbitrary. Interval analysis with exact case
+splits (on `z >> 62`, the quotient estimate of the lazy reduction; on the borrow/carry of overflowing_sub/add and wrapping_*) and
+order facts (`a < b` on the branch that computes 2M - b + a; `(x << 32) - x = x * (2^32 - 1)`).
+
+f64 only: the range of the Montgomery reduction `mont_red_cst` / `mont_red_var` is ASSUMED to be [0, M) (its proof needs exact
+bit-level reasoning: `a - (a >> 32) - carry` never wraps because 2^32 + 1 is invertible modulo 2^64, which no interval argument sees),
+and `from_mont` is a public constructor whose contract puts the obligation on its caller — it is checked at its call sites inside the
+module (mul_small), not as an entry point."""
 from ..ir import AnchorError
-from ..ranges import Analyzer, mk, top_ty, report_sites
+from ..ranges import Analyzer, mk, top_ty, const
 
-F62 = "winter_math::field::f62::"
-BE = F62 + "BaseElement"
-
-
-def in_module(fn):
-    return fn.crate == "winter_math" and (fn.nname.startswith(F62) or fn.nname.startswith("<" + F62)) and "::tests::" not in fn.nname
+FM = "winter_math::field::"
 
 
-def run_rule(ck, prog, rule="REPR"):
-    M = int(prog.const(F62 + "M")["scalar"])
-    lo, hi = 0, 2 * M - 1
+def spec(prog, fld):
+    M = int(prog.const(f"{FM}{fld}::M")["scalar"])
+    if fld == "f62":
+        return dict(lo=0, hi=2 * M - 1, what="[0, 2M)", contracts={}, skip=(), floor=8, M=M)
+    if fld == "f64":
+        return dict(lo=0, hi=M - 1, what="[0, M)", floor=6, M=M,
+                    contracts={f"{FM}f64::mont_red_cst": (0, M - 1), f"{FM}f64::mont_red_var": (0, M - 1)},
+                    skip=(f"{FM}f64::BaseElement::from_mont",))
+    raise AnchorError("no representation range documented for " + fld)
+
+
+def run_rule(ck, prog, rule="REPR", fields=("f62",)):
+    total = 0
+    for fld in fields:
+        total += run_field(ck, prog, rule, fld)
+    # positive control: the same engine must reject 2M - x for x in [0, 2M) (the value 2M is outside)
+    sp = spec(prog, "f62")
+    an2 = Analyzer(prog)
+    r = an2.binop("Sub", const(2 * sp["M"]), mk(sp["lo"], sp["hi"], True), "u64")
+    ck.control(f"{rule}: 2M - x for x in [0, 2M) is recognised as leaving the range", r["hi"] > sp["hi"])
+    return total
+
+
+def run_field(ck, prog, rule, fld):
+    sp = spec(prog, fld)
+    mod = f"{FM}{fld}::"
+    be = mod + "BaseElement"
+
+    def in_module(fn):
+        return fn.crate == "winter_math" and (fn.nname.startswith(mod) or fn.nname.startswith("<" + mod)) and "::tests::" not in fn.nname
+    lo, hi = sp["lo"], sp["hi"]
     an = Analyzer(prog, max_depth=6, opaque=lambda fn: not in_module(fn))
     an.split_shifts = True
-    an.invariants = {BE: {0: (lo, hi)}}
+    an.invariants = {be: {0: (lo, hi)}}
+    an.contracts = dict(sp["contracts"])
     inv = {"k": "agg", "f": {0: mk(lo, hi, True)}, "t": True}
-    an.type_inv[BE] = inv
-    roots = sorted((f for f in prog.fns.values() if in_module(f) and f.get("kind") != "closure"), key=lambda f: f.nname)
+    an.type_inv[be] = inv
+    roots = sorted((f for f in prog.fns.values() if in_module(f) and f.get("kind") != "closure" and f.nname not in sp["skip"]), key=lambda f: f.nname)
     if len(roots) < 30:
-        raise AnchorError(f"f62 module: only {len(roots)} functions found")
+        raise AnchorError(f"{fld} module: only {len(roots)} functions found")
+    for c in sp["contracts"]:
+        prog.fn(c)  # the assumed functions must exist (fail closed on a rename)
     seen = set()
     for f in roots:
         args = []
         for ty in f.get("inputs") or []:
             t = ty.lstrip("&").replace("mut ", "")
-            args.append(dict(inv) if t in (BE, "Self") else top_ty(ty, True))
+            args.append(dict(inv) if t in (be, "Self") else top_ty(ty, True))
         s = an.analyze(f, args)
         for a in s.alarms:
-            if a.what != "Invariant" or a.key in seen:
+            if a.what != "Invariant":
                 continue
-            seen.add(a.key)
-            ck.ob(rule, "f62:" + a.key, False,
-                  f"{a.fn.nname} can construct a BaseElement whose internal value is outside [0, 2M): the lazy representation the "
-                  f"comparisons (normalize), as_int and the reductions of add/double rely on", loc=a.loc, detail=a.detail)
+            key = f"{fld}:{f.nname}"
+            if key in seen:
+                continue
+            seen.add(key)
+            ck.ob(rule, key, False,
+                  f"{f.nname} can produce a BaseElement whose internal value is outside {sp['what']} (constructed in {a.fn.nname}): the range that "
+                  f"equality, as_int and the single conditional correction of the arithmetic rely on", loc=a.loc, detail=a.detail)
     n = 0
     for k, (status, loc) in sorted(an.site_log.items()):
         if "/Invariant:" in k and status == "safe":
             n += 1
-            ck.ob(rule, "f62:safe:" + k.split("/Invariant:")[0], True,
-                  f"every BaseElement constructed in {k.split('/Invariant:')[0]} holds a value in [0, 2M) for all inputs", loc=loc)
+            ck.ob(rule, f"{fld}:safe:" + k.split("/Invariant:")[0], True,
+                  f"every BaseElement constructed in {k.split('/Invariant:')[0]} holds a value in {sp['what']} for all inputs", loc=loc)
     for f in an.analysed_fns:
         ck.saw(f)
-    ck.floor(f"{rule}: f62 construction sites proved in range", n, 8)
-    # positive control: the same engine must reject 2M - x for x in [0, 2M) (the value 2M is outside)
-    from ..ranges import const
-    an2 = Analyzer(prog)
-    x = mk(lo, hi, True)
-    r = an2.binop("Sub", const(2 * M), x, "u64")
-    ck.control(f"{rule}: 2M - x for x in [0, 2M) is recognised as leaving the range", r["hi"] > hi)
+    if sp["contracts"]:
+        ck.assumptions.append(f"{fld}: results of {', '.join(c.split('::')[-1] for c in sp['contracts'])} are in {sp['what']} (not provable by interval analysis; see rules/repr_range.py)")
+    ck.floor(f"{rule}: {fld} construction sites proved in range", n, sp["floor"])
     return n
